@@ -216,6 +216,17 @@ func WalkList(p capnp.Ptr, l capnp.List, depth int) Node {
 					bad(n, fmt.Sprintf("primitive-list view of struct list element %d differs from the element's first data field", i))
 				}
 			}
+			// ... and a section the elements do not have reads as the default, never as a neighbouring word
+			if dsz == 0 {
+				if u64.At(i) != 0 || u32.At(i) != 0 || u16.At(i) != 0 || u8.At(i) != 0 {
+					bad(n, fmt.Sprintf("primitive-list view of struct list element %d without a data section is not zero", i))
+				}
+			}
+			if pcnt == 0 {
+				if q, err := (capnp.PointerList{List: l}).At(i); err == nil && q.IsValid() {
+					bad(n, fmt.Sprintf("pointer-list view of struct list element %d without a pointer section is not null", i))
+				}
+			}
 			if pcnt >= 1 && Cross {
 				q, err := capnp.PointerList{List: l}.At(i)
 				var viaList Node
